@@ -162,4 +162,22 @@ theorem stepX_jsonpath_state (s : DState) (line o doc : String) (steps : List St
   simp only
   cases jsonpathOp o doc steps <;> rfl
 
+/-- `stepX` never changes the state on a `chdir` line: nothing in the model of an ordinary build depends on the
+working directory -/
+theorem stepX_chdir_state (s : DState) (line d : String)
+    (h : (line.splitOn " ").filter (· ≠ "") = ["chdir", d]) : (stepX s line).1 = s := by
+  unfold stepX
+  rw [h]
+  simp only
+
+/-- `cfgrel n = f e` builds the Config with the EMPTY snapshot directory (`Dir("")`), and touches nothing else -/
+theorem stepX_cfgrel_empty_dir (s : DState) (line n f e : String) (k : Nat) (ft et : Text)
+    (h : (line.splitOn " ").filter (· ≠ "") = ["cfgrel", n, "=", f, e])
+    (hn : n.toNat? = some k) (hf : unhex f = some ft) (he : unhex e = some et) :
+    (stepX s line).1 = { s with w := { s.w with cfgs := setCfg s.w.cfgs k { filename := ft, snapsDir := [], extension := et, update := none } } } := by
+  unfold stepX
+  rw [h]
+  simp only
+  rw [hn, hf, he]
+
 end GoSnaps
